@@ -12,7 +12,7 @@ V = os.environ.get('VERIF_ROOT') or os.path.dirname(os.path.dirname(os.path.absp
 CACHE = V + '/.cache'
 ENV = dict(os.environ, CARGO_NET_OFFLINE='true')
 # the tree under test; VERIF_REPO points the program checks at a scratch copy (mutation trials)
-REPO = os.environ.get('VERIF_REPO', '/repo')
+REPO = os.environ.get('VERIF_REPO', '/repo').rstrip('/') or '/repo'
 import hashlib
 TAG = '' if REPO == '/repo' else '-' + hashlib.sha1(REPO.encode()).hexdigest()[:8]
 
@@ -161,7 +161,8 @@ def check_modules(name, modules, repo=None, target='target-probe', prelude=''):
     rc, errs, tail = cargo_check(d, target)
     by_mod, lost = failing_modules(errs, ranges)
     if rc != 0 and not errs:
-        lost.append('cargo failed without diagnostics: ' + tail[-400:])
+        # a timeout, a lock wait that ran out, a borsh that no longer builds: NOT "every module compiles"
+        raise RuntimeError('cargo check of %s failed (rc %s) without a diagnostic that can be attributed: %s' % (name, rc, tail[-400:]))
     res = {}
     for _, _, m in ranges:
         res[m] = by_mod.get(m)
